@@ -142,3 +142,33 @@ PROPS["C03"] = {
     "thorough": [rapid("pack", "^TestPropIgnorePack$", 15000, shards=5), rapid("deref", "^TestPropIgnoreDeref$", 15000, shards=4),
                  rapid("bundle", "^TestPropIgnoreBundle$", 15000, shards=4), rapid("off", "^TestPropIgnoreOff$", 8000, shards=1)],
 }
+
+PROPS["C05"] = {
+    "pkg": "c05",
+    "level": "exploration",
+    "rule": ("rapid draws trees (<=16 nodes, 38% links) whose links are drawn by intent - in-tree relative/absolute, out-of-tree relative/"
+             "absolute to files and directories, sibling-prefix (../src-evil), chains (in->out, out->out), dangling, re-entering the root by "
+             "name - inside an arena with src-evil/, ext/ (optionally with links of its own) and x/y/z/ext2/ carrying OUT: tokens, x {deref} x "
+             "{ignore} x allow-list (none, absolute prefix, relative prefix, exact, near-miss prefixes). Oracle on the decoded slug: no OUT: "
+             "content with deref off; OUT: content only at or below an out-of-tree link with deref on; an out-of-tree, non-allow-listed, "
+             "visited link makes Pack fail when deref is off and is never stored as a link; entry names are clean relative paths; relative "
+             "link entries stay inside the archive root at their own position; an illegal-slug error only when some link leaves the tree; "
+             "Unpack accepts the slug when all links are relative. Non-trivial = tree has an out-of-tree, sibling-prefix, chained, directory "
+             "or root-re-entering link; distinct by case hash."),
+    "assumptions": ["absolute in-tree links stored with their absolute target are existing tested behaviour", "link cycles are C19's domain"],
+    "quick": [rapid("leak", "^TestPropLeak$", 1800, shards=4)],
+    "thorough": [rapid("leak", "^TestPropLeak$", 15000, shards=14)],
+}
+
+PROPS["C20"] = {
+    "pkg": "c20",
+    "level": "exploration",
+    "rule": ("Same tree/option generator as C05 (half of the cases without out-of-tree links): empty trees, only directories, links of every "
+             "kind, dereferenced files and directories (also nested), ignored subtrees, empty and 64KiB files. Oracle: Meta.Files equals the "
+             "decoded entry names in order; Meta.Size equals the sum of header sizes of regular entries and the sum of body bytes read back; "
+             "non-regular entries carry no body. Non-trivial = a dereferenced link, ignore processing on, an empty file, an empty tree or "
+             "links; distinct by case hash."),
+    "assumptions": ["cases where Pack legitimately fails (illegal link without deref) are counted, not judged"],
+    "quick": [rapid("meta", "^TestPropMeta$", 1500, shards=3)],
+    "thorough": [rapid("meta", "^TestPropMeta$", 15000, shards=10)],
+}
